@@ -620,11 +620,11 @@ def check_case(case, stats=None):
 
 
 def bucket_of(case, obs, kind):
-    R, C = case["flags"]
     strict = all_outcomes(case)
-    want_exc = sorted({o["exc"] is not None for o in strict})
-    got_exc = obs["exc"] is not None
-    return "%s:R%dC%d:%s:want-raise=%s:got-raise=%s" % (kind, int(R), int(C), case["kind"], want_exc, got_exc)
+    want = sorted({o["exc"] is not None for o in strict})
+    got = obs["exc"] is not None
+    what = "raise" if want != [got] and got not in want else "commands-run"
+    return "%s:%s:reference-raises=%s:xonsh-raises=%s" % (kind, what, "/".join(str(w) for w in want), got)
 
 
 # ----------------------------------------------------------------------------------------
@@ -763,6 +763,11 @@ def case_strategy(process=False):
             form = draw(hs.sampled_from(forms))
             ns = draw(hs.sampled_from([1, 1, 1, 1, 1, 1, 2, 2, 2, 3]))
             stages = [stage(form == "out" and j == ns - 1) for j in range(ns)]
+            # external stages only upstream of alias stages: an alias stage in front of a `vexit` that exits
+            # without reading may be torn down before its thread has run (pipeline plumbing, C06/C09)
+            for j in range(ns - 1, 0, -1):
+                if stages[j]["ext"] and not stages[j - 1]["ext"]:
+                    stages[j]["ext"] = False
             lf = {"t": "leaf", "form": form, "cls": draw(hs.sampled_from(["py", "np"])),
                   "pfx": draw(hs.integers(0, 1)), "stages": stages, "inner": None, "wrap": "bare"}
             if form == "inject":
@@ -828,8 +833,8 @@ def worker_random(arg):
     common.run_given(case_strategy(), body, seed, n)
     firsts = _one_per_bucket(st.failures)
     out = []
-    for f in firsts:
-        if f.finding == F1 and F1 in _state.get("open", ()):
+    for nb, f in enumerate(firsts):
+        if (f.finding == F1 and F1 in _state.get("open", ())) or nb >= 3:
             out.append(f)
             continue
 
@@ -837,7 +842,7 @@ def worker_random(arg):
             g, _s = check_case(case)
             return g is not None and g.finding == _f.finding and (g.finding is not None or g.bucket == _f.bucket)
 
-        m = common.minimize(case_strategy(), still, seed, n, seconds=20)
+        m = common.minimize(case_strategy(), still, seed, min(n, 300), seconds=8)
         if m is not None:
             g, _s = check_case(m)
             if g is not None:
